@@ -25,6 +25,8 @@ def main(argv):
     if cmd == "replay":
         from hvsim import core, orchestrator
 
+        orchestrator._worker_init()  # the same address-space cap the campaign workers run under
+
         doc = core.from_jsonable(json.load(open(argv[2])))
         res = orchestrator.replay_case(doc["case"], doc.get("prelude"))
         quiet = "--quiet" in argv
